@@ -74,6 +74,11 @@ func (c08) Gen(r *sim.RNG, tier string, idx int) *Scenario {
 	if idx < gen.SmallCount && idx%3 == 0 {
 		sc.World = gen.Small(idx)
 		sc.Note = fmt.Sprintf("small topology %d", idx)
+	} else if idx%3 == 1 && idx/3 < gen.TwinsCount*8 {
+		// documents of the same name in two folders (one of them next to the root), under faults: a
+		// document that cannot be had must not be replaced by its namesake elsewhere
+		sc.World = gen.Twins((idx / 3) % gen.TwinsCount)
+		sc.Note = fmt.Sprintf("twin documents %d", (idx/3)%gen.TwinsCount)
 	} else {
 		cfg := gen.DrawCfg(r)
 		cfg.IllFounded = false
